@@ -209,6 +209,8 @@ func runCase(p *Prop, c *CaseCtx) (res *CaseResult) {
 			res.fail(viol("panic", "panic inside a library call made with valid arguments: %v\n%s", r, string(debug.Stack())))
 		}
 	}()
+	// every third case reaches its ledgers through the library's own register adapter (LedgerBaseStorage)
+	ledgerViaAPI = c.Case%3 == 1
 	res = p.Run(c)
 	return res
 }
@@ -241,6 +243,10 @@ func cmdWorker(args []string) int {
 		sr.Evaluations += ev
 		if res.Stats != nil {
 			sr.Stats.merge(res.Stats)
+		}
+		if n := int(ledgerAPICalls.Swap(0)); n > 0 {
+			sr.Obs["register-accesses-through-LedgerBaseStorage"] += n
+			sr.Obs["cases-through-LedgerBaseStorage"]++
 		}
 		for k, v := range res.Obs {
 			mergeObs(sr.Obs, k, v)
